@@ -175,6 +175,13 @@ QSamplePanic(q) == Flag(q, {<<"C20", "panic-while-reading-the-counters">>, <<"C1
 
 \* a high-contention phase: many threads emitted at once, each counted its own Ok results, the wrapped sink counted
 \* what it was handed; only the totals are recorded (C15 "exact under any concurrency", at quiescence)
+\* emit latencies measured while the wrapped sink is held blocked (gate closed): the quickest of nref refused and of nok
+\* accepted calls, in microseconds. emit "returns promptly even while the wrapped sink is blocked indefinitely" (C10): with
+\* three or more calls of a kind, not even the quickest taking 20 ms means emit waits (for room, for the worker, for a timeout)
+QLatency(q, nref, minref, nok, minok) ==
+  Flag(q, (IF nref >= 3 /\ minref > 20000 THEN {<<"C10", "every-refused-emit-waited-while-the-wrapped-sink-was-blocked">>} ELSE {})
+          \cup (IF nok >= 3 /\ minok > 20000 THEN {<<"C10", "every-accepted-emit-waited-while-the-wrapped-sink-was-blocked">>} ELSE {}))
+
 QBulk(q, okn, deln) == [q EXCEPT !.bulkOk = @ + okn, !.bulkDel = @ + deln]
 
 \* after every producer returned and the sink had time to drain, handles still alive
